@@ -4,7 +4,9 @@ Proof: Props/C07.v over Model/Hash.v (+ abstract digest in Proofs/HashFacts.v).
 Tie: every generated value is realised as Python objects in separate interpreter processes with
 different PYTHONHASHSEED / insertion orders / array layouts / sharing; the chunks the real code feeds
 to sha1 are recorded and must equal the model's stream (evaluated in coqc).
-Search: same value, different process/seed/realisation => identical identifier."""
+Search: same value, different process/seed/realisation => identical identifier; and the identifier computed in an
+interpreter that has hashed many other values before equals the one computed in an interpreter that has hashed nothing
+(each spec once more in a forked child of a pristine process)."""
 import random
 
 from . import core
@@ -13,7 +15,8 @@ from . import hashgen
 EVIDENCE = dict(
     level='proof',
     rule='cases = generated value/invocation specs (nested containers, sets, dicts, arrays of all layouts, tasks, tasklets, '
-         'mapped sequences, hash wrappers), each realised in k interpreter processes with different PYTHONHASHSEED; '
+         'mapped sequences, hash wrappers), each realised in k interpreter processes with different PYTHONHASHSEED (one after the other) '
+         'and once in an interpreter that has computed no other identifier; '
          'non-trivial = the spec contains at least one container/array/task node (more than one node); distinct = distinct specs',
     explanation='Coq: the digest is invariant under permutation of set/frozenset/dict children and array layout (for any sha1 stand-in H); '
                 'tie: recorded sha1.update chunk sequence of the real code == model stream',
@@ -39,6 +42,19 @@ def gen_specs(ck, n):
         ['set', [['frozenset', [['leaf', "'a'"], ['leaf', "'b'"]]], ['leaf', "'c'"], ['tuple', [['leaf', '1']]]]],
         ['lambda', ['task', 'g', [], []], 'la'],
         ['mapslice', ['mapseq', 'm1', ['1', '2', '3', '4', '5'], 2], 1, 4, 1],
+        # record / sub-array dtypes in every layout, big-endian data, chains of tasklets (return_tuple, iteratetask)
+        ['rawarray', [['x', '<i4'], ['y', '<f4']], [2, 3], '000102030405060708090a0b0c0d0e0f101112131415161718191a1b1c1d1e1f202122232425262728292a2b2c2d2e2f'],
+        ['task', 'f', [['rawarray', [['x', '<i2', [2]], ['p', [['y', '>i4']]]], [3, 2], '000102030405060708090a0b0c0d0e0f101112131415161718191a1b1c1d1e1f202122232425262728292a2b2c2d2e2f']], []],
+        ['rawarray', '>f8', [2, 3], '000102030405060708090a0b0c0d0e0f101112131415161718191a1b1c1d1e1f202122232425262728292a2b2c2d2e2f'],
+        ['task', 'f', [['getitem', ['rettuple', ['task', 'g', [['set', [['leaf', "'u'"], ['leaf', "'v'"]]]], []], 1, 2], ['leaf', '0']],
+                       ['iter', ['getitem', ['task', 'g', [], []], ['leaf', "'a'"]], 1, 3]], []],
+        # ==-equal scalars of different types as dict keys / set elements of consecutive values
+        ['task', 'f', [['dict', [[['leaf', '1'], ['leaf', '10']], [['leaf', '2'], ['leaf', '20']]]]], []],
+        ['task', 'g', [['dict', [[['leaf', '1.0'], ['leaf', '10']], [['leaf', '2.0'], ['leaf', '20']], [['leaf', '2.5'], ['leaf', '5']]]]], []],
+        ['set', [['leaf', '0'], ['leaf', '7']]],
+        ['set', [['leaf', '-0.0'], ['leaf', '7.0']]],
+        ['frozenset', [['leaf', 'True'], ['leaf', "'t'"]]],
+        ['frozenset', [['leaf', '1'], ['leaf', "'t'"]]],
     ]
     return corpus + specs
 
@@ -75,6 +91,7 @@ def run(ck):
         for s, r in zip(seeds, recs):
             cases.append(r['case'])
             meta.append({'spec': spec, 'seed': s})
+    order_dependence(ck, specs, results, seeds)
     ck.sample({'spec': specs[len(specs) // 2], 'seeds': seeds})
     ck.sample({'coq_case': cases[0]})
     if nerr > len(specs) // 5:
@@ -87,7 +104,46 @@ def run(ck):
                       'spec': meta[i]['spec'], 'seed': meta[i]['seed'], 'coq_case': cases[i][:3000]})
 
 
+def order_dependence(ck, specs, results, seeds):
+    """the identifier of a value must not depend on which identifiers the interpreter computed before: compare the
+    identifiers obtained one-after-the-other with those obtained in an interpreter that hashed nothing else; on a
+    difference look for ONE earlier spec that is enough to change it (that pair is the failing input)"""
+    iso = hashgen.run_workers(specs, [1], 'c07iso', mode='iso')[0]
+    ck.count('isolated_identifiers', len(iso))
+    reported = 0
+    for i, spec in enumerate(specs):
+        if iso[i].get('error') or any(r[i].get('error') for r in results):
+            continue
+        if len(set(r[i]['digest'] for r in results)) != 1:
+            continue            # differs between processes already: reported by the cross-process comparison
+        alone = iso[i]['digest']
+        off = [(s, r[i]['digest']) for s, r in zip(seeds, results) if r[i]['digest'] != alone]
+        if not off:
+            continue
+        ck.count('order_dependent_identifier')
+        if reported >= 3:
+            continue
+        reported += 1
+        # which single earlier spec is enough?  (each candidate pair in its own pristine interpreter)
+        earlier = [j for j in range(i) if not iso[j].get('error')]
+        pairs = hashgen.run_workers([['seq', [specs[j], spec]] for j in earlier], [1], 'c07iso', mode='iso')[0] if earlier else []
+        culprit = next((j for j, r in zip(earlier, pairs) if r.get('digest') not in (None, alone)), None)
+        obj = {'kind': 'impl-violation', 'what': 'identifier depends on which identifiers the same interpreter computed before',
+               'spec': spec, 'identifier_alone': alone, 'identifier_after_others': dict((str(s), d) for s, d in off)}
+        if culprit is not None:
+            obj['first'] = specs[culprit]
+            obj['identifier_after_first'] = pairs[earlier.index(culprit)]['digest']
+            ck.violation(obj)
+        else:
+            ck.violation(obj, found_input=False)
+
+
 def replay(obj):
+    if 'first' in obj:
+        res = hashgen.run_workers([obj['spec'], ['seq', [obj['first'], obj['spec']]]], [1], 'replay', mode='iso')[0]
+        print('identifier of spec alone:            ', res[0].get('digest'), res[0].get('error', ''))
+        print('identifier of spec after hashing first:', res[1].get('digest'), res[1].get('error', ''))
+        return 0 if res[0].get('digest') == res[1].get('digest') and res[0].get('digest') else 1
     spec = obj['spec']
     seeds = obj.get('seeds') or [obj.get('seed', 1), obj.get('seed', 1) + 1]
     results = hashgen.run_workers([spec], seeds, 'replay')
